@@ -168,7 +168,7 @@ def unit_chain(acc: Acc) -> None:
 
 
 # ---------------------------------------------------------------- lexing / compiling
-DATES = [dt.date(2000, 1, 1), dt.date(2099, 12, 31), dt.date(2024, 2, 29), dt.date(2024, 10, 30), dt.date(2031, 3, 14), dt.date(2019, 9, 9), dt.date(2024, 11, 1), dt.date(2030, 1, 31)]
+DATES = [dt.date(2000, 1, 1), dt.date(2099, 12, 31), dt.date(2024, 2, 29), dt.date(2024, 10, 30), dt.date(2031, 3, 14), dt.date(2019, 9, 9), dt.date(2024, 11, 1), dt.date(2030, 1, 31), dt.date(2000, 2, 29), dt.date(2028, 2, 29), dt.date(2068, 12, 31), dt.date(2069, 1, 1), dt.date(2096, 2, 29)]
 
 
 def _neighbourhood() -> list[str]:
@@ -257,7 +257,9 @@ def unit_hist(acc: Acc, unit: dict) -> None:
         root = harness.fresh_dir("c07") / "org"
         root.mkdir()
         ndates = rng.randint(1, 5)
-        days = [dt.date(2024, 1, 1) + dt.timedelta(days=rng.randint(0, 3000)) for _ in range(ndates)]
+        days = [(rng.choice(DATES) if rng.random() < 0.15 else dt.date(2024, 1, 1) + dt.timedelta(days=rng.randint(0, 3000))) for _ in range(ndates)]
+        days = list(dict.fromkeys(days))
+        ndates = len(days)
         pre = {}
         if rng.random() < 0.6:
             (root / ".zorg").mkdir()
